@@ -3,7 +3,7 @@
 N=$1; CHECK=$2; TIER=${3:-quick}
 WT=/tmp/wt/N${N#R}
 [ -d $WT ] || git -C /repo worktree add -q --detach $WT HEAD
-git -C $WT checkout -q -- . && git -C $WT apply /verif/neutral/$N/patch.diff || exit 3
+git -C $WT checkout -q -- . && git -C $WT clean -fdq && git -C $WT checkout -q --detach $(git -C /repo rev-parse HEAD) && git -C $WT apply /verif/neutral/$N/patch.diff || exit 3
 mkdir -p /tmp/neutralruns/$N
 VERIF_OUT_DIR=/tmp/neutralruns/$N EDGEGRAPH_ROOT=$WT /verif/bin/check $CHECK --tier $TIER > /tmp/neutralruns/$N/$CHECK.log 2>&1
 RC=$?
